@@ -719,3 +719,106 @@ Lemma effective_priority v cs w es :
   fix_if v = true -> cfg_small (cfg_of w cs) ->
   n_eff (node_of w (run v cs (init_pair cs) es)) = spec_eff (cfg_of w cs) w es.
 Proof. intros Hf Hsm. apply (run_track_inv v cs w es Hf Hsm). Qed.
+
+(* ------------------------------------------------------------------ no self promotion *)
+Lemma who_eqb_true w w' : who_eqb w w' = true -> w' = w.
+Proof. destruct w, w'; intros H; try discriminate H; reflexivity. Qed.
+
+Definition promotion_cause (cs : cfgs) (s : pair) (w : who) (e : ev) : Prop :=
+  let st := n_st (node_of w s) in
+  match e with
+  | ESwLocal w' f => w' = w /\ (st = StandbyAlone -> f = true)
+  | ESwRemote w' => w' = w /\ st = Standby
+  | EIf w' k d => w' = w /\ d = true /\ tracked (cfg_of w cs) k = true /\ st = StandbyAlone
+  | EPeerLost w' => w' = w /\ st = Standby /\ 0 < n_cnt (node_of w s)
+  | EDeliver w' i => w' = w /\ queue_to w s <> []
+  | _ => False
+  end.
+
+Lemma promotion_justified v cs s e w :
+  (n_st (node_of w s) = Standby \/ n_st (node_of w s) = StandbyAlone) ->
+  is_active (n_st (node_of w (fst (step v cs s e)))) = true ->
+  promotion_cause cs s w e.
+Proof.
+  rewrite step_node. intros Hst Hact.
+  assert (Hna : is_active (n_st (node_of w s)) = false) by (destruct Hst as [E|E]; rewrite E; reflexivity).
+  unfold step_node_fn in Hact. unfold promotion_cause.
+  destruct e as [w'|w'|w' i|w' i|w'|w' k d|w' f|w']; try congruence;
+    (destruct (who_eqb w w') eqn:Ew; [apply who_eqb_true in Ew; subst w' | congruence]).
+  - destruct (start_facts (node_of w s)) as (_ & _ & Hs). rewrite Hs in Hact.
+    destruct Hst as [E|E]; rewrite E in Hact; discriminate Hact.
+  - split; [reflexivity|]. destruct (queue_to w s) eqn:Q; [|discriminate]. exfalso.
+    assert (N : nth_error (@nil hb) (i mod length (@nil hb))%nat = None)
+      by (destruct (i mod length (@nil hb))%nat; reflexivity).
+    rewrite N in Hact. congruence.
+  - destruct (peer_lost_facts (node_of w s)) as (_ & _ & Hs). rewrite Hs in Hact.
+    destruct Hst as [E|E]; rewrite E in Hact; [|discriminate Hact].
+    split; [reflexivity|]. split; [exact E|].
+    destruct (Z.ltb_spec 0 (n_cnt (node_of w s))); [assumption | discriminate Hact].
+  - destruct (if_facts v (cfg_of w cs) (node_of w s) k d) as (_ & Hs & _). rewrite Hs in Hact.
+    destruct (tracked (cfg_of w cs) k), d; cbn [andb] in Hact; try congruence.
+    destruct Hst as [E|E]; rewrite E in Hact; cbn in Hact; [discriminate Hact|]. auto.
+  - destruct (switchover_facts (node_of w s) f) as (_ & _ & Hs). rewrite Hs in Hact.
+    split; [reflexivity|]. intros E. rewrite E in Hact. destruct f; [reflexivity | discriminate Hact].
+  - destruct (switchover_facts (node_of w s) false) as (_ & _ & Hs). rewrite Hs in Hact.
+    split; [reflexivity|]. destruct Hst as [E|E]; [exact E|]. rewrite E in Hact. discriminate Hact.
+Qed.
+
+(* a STANDBY node that loses its peer: STANDBY_ALONE, or ACTIVE_SOLO when a tracked interface is down *)
+Lemma standby_peer_lost v cs s w :
+  n_st (node_of w s) = Standby ->
+  n_st (node_of w (fst (step v cs s (EPeerLost w)))) =
+  if 0 <? n_cnt (node_of w s) then ActiveSolo else StandbyAlone.
+Proof.
+  intros E. rewrite step_node. unfold step_node_fn. rewrite who_eqb_refl.
+  destruct (peer_lost_facts (node_of w s)) as (_ & _ & Hs). now rewrite Hs, E.
+Qed.
+
+Lemma cnt_is_down_interfaces v cs w es :
+  fix_if v = true -> cfg_small (cfg_of w cs) ->
+  n_cnt (node_of w (run v cs (init_pair cs) es)) = spec_cnt (cfg_of w cs) w es.
+Proof. intros Hf Hsm. apply (run_track_inv v cs w es Hf Hsm). Qed.
+
+(* ------------------------------------------------------------------ an exchange is three events *)
+Lemma xchg_is_events v cs w s :
+  q_a s = [] -> q_b s = [] ->
+  let s' := run v cs s [ESend w; EDeliver (other w) 0; EDeliver w 0] in
+  (p_a s', p_b s') = xchg v cs w (p_a s, p_b s) /\ q_a s' = [] /\ q_b s' = [].
+Proof.
+  destruct s as [a b qa qb], cs as [ca cb]. cbn [q_a q_b p_a p_b]. intros -> ->.
+  destruct w; cbn -[handle_hb].
+  - destruct (handle_hb v cb b _) as [b' tb] eqn:Eb. cbn -[handle_hb].
+    destruct (handle_hb v ca a _) as [a' ta] eqn:Ea. cbn. auto.
+  - destruct (handle_hb v ca a _) as [a' ta] eqn:Ea. cbn -[handle_hb].
+    destruct (handle_hb v cb b _) as [b' tb] eqn:Eb. cbn. auto.
+Qed.
+
+Lemma standby_peer_lost_spec v cs es w :
+  fix_if v = true -> cfg_small (cfg_of w cs) ->
+  let s := run v cs (init_pair cs) es in
+  n_st (node_of w s) = Standby ->
+  n_st (node_of w (fst (step v cs s (EPeerLost w)))) =
+  if 0 <? spec_cnt (cfg_of w cs) w es then ActiveSolo else StandbyAlone.
+Proof.
+  intros Hf Hsm s E. rewrite (standby_peer_lost v cs s w E). unfold s.
+  now rewrite (cnt_is_down_interfaces v cs w es Hf Hsm).
+Qed.
+
+Lemma no_self_promotion_run v cs es e w :
+  let s := run v cs (init_pair cs) es in
+  (n_st (node_of w s) = Standby \/ n_st (node_of w s) = StandbyAlone) ->
+  is_active (n_st (node_of w (fst (step v cs s e)))) = true ->
+  promotion_cause cs s w e.
+Proof. intros s. apply promotion_justified. Qed.
+
+Lemma converges_run v cs es w1 w2 w3 :
+  fix_hb v = true -> c_id (fst cs) <> c_id (snd cs) ->
+  let s := run v cs (init_pair cs) es in
+  n_st (p_a s) <> Init -> n_st (p_b s) <> Init ->
+  let r := xchgs v cs [w1; w2; w3] (p_a s, p_b s) in
+  pair_one_active r = true /\ absn (xchg v cs A r) = absn r /\ absn (xchg v cs B r) = absn r.
+Proof.
+  intros Hf Hne s Ha Hb. apply converges; auto.
+  - apply (run_started_ok v cs es A Ha).
+  - apply (run_started_ok v cs es B Hb).
+Qed.
